@@ -59,8 +59,9 @@ func writeUnionClasses(fw *common.MatlabFileWriter, td dsl.TypeDefinition, union
 			if node.Cases.IsUnion() {
 				unionClassName := common.UnionClassName(node)
 				if !unionGenerated[unionClassName] {
-					if _, isNamedType := td.(*dsl.NamedType); isNamedType {
+					if nt, isNamedType := td.(*dsl.NamedType); isNamedType && nt.Type == dsl.Type(node) {
 						// This is a named type defining a union, so we will use the named type's name instead
+						// (a union nested somewhere inside the named type keeps its own name)
 						unionClassName = td.GetDefinitionMeta().Name
 					}
 					writeError = fw.WriteFile(unionClassName, func(w *formatting.IndentedWriter) {
